@@ -72,7 +72,7 @@ def run(ctx):
     for i in range(ctx.n(5000, 60000)):
         cases.append([ctx.seed * 100003 + i, ctx.rng.choice([1, 2, 3, 4]), ctx.rng.random() < 0.25, ctx.rng.choice(['py', 'py', 'c'])])
     corr.direct(ctx, 'c17', cases, describe=lambda c: dict(graph_seed=c[0], depth=c[1], with_cycle=c[2], backend=c[3]), label='rebuild')
-    corr.direct(ctx, 'c17special', [[n, be] for n in ('limitlist', 'falsy') for be in ('py', 'c')], describe=lambda c: dict(special=c[0], backend=c[1]), label='special')
+    corr.direct(ctx, 'c17special', [[n, be] for n in ('limitlist', 'falsy', 'copyreg_handle', 'copyreg_shared', 're_pattern', 're_pattern_bytes') for be in ('py', 'c')], describe=lambda c: dict(special=c[0], backend=c[1]), label='special')
     ctx.partial = [dict(theorem='sharing_preserved / cycle_policy / full_accepts_subset', missing='decided by the direct run; the object protocol is modelled abstractly')]
     ctx.refuted = [dict(theorem='C17_yaml_ops_order_refuted', witness='LimitList [1,2,3,4] limit=2'), dict(theorem='C17_falsy_state_refuted', witness='__getstate__ returning 0')]
     return ctx.finish(assumptions=['pickle protocol 2 as implemented by CPython 3.12 is the reference', 'the generated graph is skipped when pickle itself does not rebuild it faithfully'])
